@@ -732,7 +732,31 @@ def c04_10(ctx):
     return out
 
 
+def c04_12(ctx):
+    """MEMO: no method of the modules this property is anchored in answers from a value remembered from an earlier argument or an
+    earlier state of the object (confirmed caches of the reference tree: sa/memo.py CONFIRMED_CACHES)"""
+    from sa.memo import cache_obligation
+    return cache_obligation(ctx, ["tx", "script", "witness", "helper", "timelock"], "a serialisation or id computed once would be returned after the transaction was edited")
+
+
+def c04_13(ctx):
+    """SET-ORDER: no ordered result (list, serialisation, yielded sequence) of the modules this property is anchored in takes its
+    order from the iteration order of a set"""
+    from sa.setorder import setorder_obligation
+    return setorder_obligation(ctx, ["tx", "script", "witness", "helper", "timelock"], "the same inputs give different output from run to run")
+
+
+def c04_14(ctx):
+    """SHARED necessary conditions over the modules this property is anchored in: FALSY-DEFAULT, MUTABLE-DEFAULT, IDENTITY, ALIAS,
+    CTOR-FORWARD (sa/shared.py)"""
+    from sa.shared import shared_obligations
+    return shared_obligations(ctx, ["tx", "script", "witness", "helper", "timelock"], "the result would depend on something other than the arguments and the object's current state")
+
+
 OBLIGATIONS = [
+    ("C04.14", "SHARED", c04_14),
+    ("C04.13", "SET-ORDER", c04_13),
+    ("C04.12", "MEMO", c04_12),
     ("C04.1", "RANGE partition", c04_1),
     ("C04.2", "RANGE partition", c04_2),
     ("C04.3", "RANGE partition+agreement", c04_3),
